@@ -684,7 +684,7 @@ def _first_diff(a, b, which):
 
 ORDERS = ['zyx', 'xyz', 'yxz', 'arm', 'vehicle', 'camera']
 ORIENTS = ['rpy/zyx', 'rpy/yxz', 'eul', 'angvec']
-BAD_KINDS = ['sc', 'v2', 'v3', 'v4', 'v6', 'R2', 'T2', 'R3', 'T3', 'm33', 'm66', 'p3', 'none', 'str',
+BAD_KINDS = ['sc', 'v0', 'v2', 'v3', 'v4', 'v6', 'R2', 'T2', 'R3', 'T3', 'm33', 'm66', 'p3', 'none', 'str',
              'q', 'se3', 'so3', 'ANYOBJ', 'int', 'bool']
 
 
